@@ -89,9 +89,15 @@ def generate(rng, tier):
         if kind == 'optimize':
             method = rng.choice(['cosine', 'corr'])
             sigma = None
+        plab = None
+        if sel is not None and rng.random() < 0.4:
+            order = list(range(nc))
+            while order == sorted(order):
+                rng.shuffle(order)
+            plab = [f'k{v}' for v in order] if rng.random() < 0.5 else [3 * v + 1 for v in order]
         out.append(dict(kind=f'{kind}:{method}', call=kind, method=method, n_cond=nc, basis8=basis, data8=data, sel=sel, sigma=sigma,
                         normalize=rng.random() < 0.6, positive=rng.random() < 0.5, via_model=rng.random() < 0.3,
-                        seed=rng.randrange(10 ** 6)))
+                        seed=rng.randrange(10 ** 6), plab=plab))
     return out
 
 
@@ -104,10 +110,18 @@ def nontrivial(c):
 def build(c):
     import rsatoolbox
     from rsatoolbox.rdm import RDMs
-    B = RDMs(np.array(c['basis8'], float) / 8)
-    D = RDMs(np.array(c['data8'], float) / 8)
     sel = c['sel']
-    train = D.subsample_pattern('index', sel) if sel is not None else D
+    if c.get('plab') and sel is not None:
+        # the conditions are named by a descriptor with unique, unsorted labels (seeded change C08-m8); the fit is asked for
+        # by label, the model and the expected result are unchanged (the same conditions with the same multiplicity)
+        lab = list(c['plab'])
+        B = RDMs(np.array(c['basis8'], float) / 8, pattern_descriptors={'stim': lab})
+        D = RDMs(np.array(c['data8'], float) / 8, pattern_descriptors={'stim': lab})
+        train = D.subsample_pattern('stim', [lab[i] for i in sel])
+    else:
+        B = RDMs(np.array(c['basis8'], float) / 8)
+        D = RDMs(np.array(c['data8'], float) / 8)
+        train = D.subsample_pattern('index', sel) if sel is not None else D
     sig = None if c['sigma'] is None else np.array(c['sigma'], float) / 4
     return B, D, train, sel, sig
 
@@ -166,6 +180,8 @@ def run(c):
     kw = dict(method=c['method'], sigma_k=sig)
     if sel is not None:
         kw.update(pattern_idx=np.array(sel), pattern_descriptor='index')
+        if c.get('plab'):
+            kw.update(pattern_idx=np.array([c['plab'][i] for i in sel]), pattern_descriptor='stim')
     before = (B.dissimilarities.copy(), train.dissimilarities.copy())
     np.random.seed(c['seed'] % (2 ** 31))
     call = c['call']
@@ -326,3 +342,35 @@ def oracle(c, o):
         if not np.allclose(t2, theta, rtol=1e-6, atol=1e-8):
             return f'changing the basis RDMs at unselected conditions changed the fit: {theta} -> {t2}'
     return None
+
+
+# -------------------------------------------------------------------------------- supporting tests
+def support(rng, tier):
+    """a Fitter object is a fitting function with default arguments: every call maximises the criterion it is asked for with the
+    conditions it is given, whatever it was called with before (seeded change C08-m7: keywords of one call kept for the next)"""
+    import warnings
+    warnings.simplefilter('ignore')
+    from rsatoolbox.rdm import RDMs
+    from rsatoolbox import model as M
+    from rsatoolbox.model import fitter as Fi
+    res = []
+    rs = np.random.RandomState(5 + rng.randrange(1000))
+    for rep in range(4 if tier == 'quick' else 40):
+        nc = rs.randint(5, 7)
+        m = nc * (nc - 1) // 2
+        basis = RDMs(rs.randint(1, 40, size=(3, m)) / 8.0)
+        data = RDMs(rs.randint(1, 40, size=(3, m)) / 8.0)
+        mdl = M.ModelWeighted('w', basis)
+        sub = np.array(sorted(rs.choice(nc, 4, replace=False).tolist()))
+        for base, kw0 in ((Fi.fit_regress, {}), (Fi.fit_regress_nn, {}), (Fi.fit_regress, dict(normalize=False))):
+            f = Fi.Fitter(base, **kw0)
+            first = f(mdl, data.subsample_pattern('index', sub), method='corr', pattern_idx=sub, pattern_descriptor='index')
+            second = f(mdl, data)
+            want = base(mdl, data, **kw0)
+            again = f(mdl, data.subsample_pattern('index', sub), pattern_idx=sub, pattern_descriptor='index')
+            want2 = base(mdl, data.subsample_pattern('index', sub), pattern_idx=sub, pattern_descriptor='index', **kw0)
+            ok = bool(np.allclose(second, want, atol=1e-10) and np.allclose(again, want2, atol=1e-10))
+            res.append((f'fitter_object_keeps_no_state_{base.__name__}_{rep}', ok,
+                        dict(fitter=base.__name__, defaults=kw0, second_call=np.asarray(second).tolist(), expected=np.asarray(want).tolist(),
+                             third_call=np.asarray(again).tolist(), expected_third=np.asarray(want2).tolist())))
+    return res
